@@ -82,10 +82,10 @@ func (x *datasetExec) step(e engine.Event) {
 		x.lib("Merge", "merge", func() { nd.real.Merge(src.real) })
 		nd.vals = append(nd.vals, src.vals...)
 		x.st.Oracle("merge")
-		x.check(nd, nil, 0x3f, "merge")
+		x.check(nd, nil, 0x0f, "merge")
 		// the argument still holds its multiset
 		src.vals = before
-		x.check(src, nil, 0x3f, "merge-argument")
+		x.check(src, nil, 0x1f, "merge-argument")
 		x.st.ProbeIf(len(src.vals) == 0, "merge-of-empty-dataset")
 	case "query":
 		x.check(nd, e.Q, int(e.I), "query")
@@ -109,13 +109,40 @@ func (x *datasetExec) check(nd *dnode, qs []engine.F64, reads int, sig string) {
 			x.fail("min-max-count", sig, "Count differs from the number of added values", fmt.Sprint(n), fmt.Sprint(c))
 		}
 	}
-	if n > 0 && reads&2 != 0 {
+	// Min and Max are asked separately and in either order: each may be the first
+	// order-statistic query after an addition (the dataset sorts lazily)
+	checkMin := func() {
 		x.st.Oracle("min-max-count")
-		var mn, mx float64
+		var mn float64
 		x.lib("Min", sig, func() { mn = d.Min() })
+		if mn != sorted[0] {
+			x.fail("min-max-count", sig, "Min differs from the exact minimum", fmt.Sprint(sorted[0]), fmt.Sprint(mn))
+		}
+	}
+	checkMax := func() {
+		x.st.Oracle("min-max-count")
+		var mx float64
 		x.lib("Max", sig, func() { mx = d.Max() })
-		if fbits(mn) != fbits(sorted[0]) && !(mn == 0 && sorted[0] == 0) || fbits(mx) != fbits(sorted[n-1]) && !(mx == 0 && sorted[n-1] == 0) {
-			x.fail("min-max-count", sig, "Min/Max differ from the exact extremes", fmt.Sprint(sorted[0], sorted[n-1]), fmt.Sprint(mn, mx))
+		if mx != sorted[n-1] {
+			x.fail("min-max-count", sig, "Max differs from the exact maximum", fmt.Sprint(sorted[n-1]), fmt.Sprint(mx))
+		}
+	}
+	if n > 0 {
+		if reads&16 != 0 {
+			if reads&8 != 0 {
+				checkMax()
+				x.st.Probe("max-asked-first")
+			}
+			if reads&2 != 0 {
+				checkMin()
+			}
+		} else {
+			if reads&2 != 0 {
+				checkMin()
+			}
+			if reads&8 != 0 {
+				checkMax()
+			}
 		}
 	}
 	if reads&4 != 0 {
@@ -181,7 +208,7 @@ func (x *datasetExec) quiesce() {
 	grid := []engine.F64{0, 0.1, 0.25, 0.5, 0.75, 0.9, 1}
 	for _, id := range ids {
 		nd := x.nodes[id]
-		x.check(nd, grid, 7, "quiesce")
+		x.check(nd, grid, 15, "quiesce")
 		if len(nd.vals) < 2 {
 			continue
 		}
@@ -263,7 +290,10 @@ func GenDatasetWorld(r *engine.PRNG, run int, tier string) *engine.Plan {
 			}
 			qs = append(qs, engine.F64(v))
 		}
-		emit(engine.Event{Ev: "query", N: id, Q: qs, I: int64(r.Intn(8))})
+		if r.Pct(25) {
+			qs = nil // only summaries: Min / Max / Sum / Count may be the first query after an addition
+		}
+		emit(engine.Event{Ev: "query", N: id, Q: qs, I: int64(r.Intn(32))})
 	}
 	var actor func(id int)
 	actor = func(id int) {
